@@ -8,7 +8,14 @@
 (***************************************************************************)
 EXTENDS SeqCalc
 
-EmptyWS == [recs |-> << >>, nextId |-> 0, vs |-> {}]
+\* taint: records derived from a step that was rejected (laws relating them
+\* to earlier records would only repeat the root cause, so they are skipped)
+EmptyWS == [recs |-> << >>, nextId |-> 0, vs |-> {}, taint |-> {}]
+
+OpSrcs(e) ==
+  (IF "src" \in DOMAIN e THEN {e.src} ELSE {})
+  \cup (IF "guest" \in DOMAIN e THEN {e.guest} ELSE {})
+  \cup (IF "srcs" \in DOMAIN e THEN {e.srcs[j] : j \in 1..Len(e.srcs)} ELSE {})
 
 FreshIds(ws, n) == [j \in 1..n |-> ws.nextId + j]
 
@@ -84,36 +91,52 @@ RepairedOp(recs, e, D) ==
     [] D = "BwOrigin" ->
        (CASE e.op = "rotate" -> NoBwOrigin!RotateC(recs[e.src].raw, e.n)
           [] e.op = "slice"  -> NoBwOrigin!SliceC(recs[e.src].raw, e.s, e.e)
+          [] e.op = "insert" -> NoBwOrigin!InsertC(recs[e.src].raw, e.i, recs[e.guest].raw)
+          [] e.op = "embed"  -> NoBwOrigin!EmbedC(recs[e.src].raw, e.i, recs[e.guest].raw)
+          [] e.op = "concat" -> NoBwOrigin!ConcatC([j \in 1..Len(e.srcs) |-> recs[e.srcs[j]].raw])
           [] OTHER -> CalcOp(recs, e))
     [] OTHER -> CalcOp(recs, e)
 
 \* set of deviations that explain verdict v raised for the observed e.st
 Explains(ws, e, v) ==
   IF e.panic # "" \/ ~SameObs(CalcOp(ws.recs, e), e.st) THEN {}
-  ELSE {D \in Devs :
+  ELSE {D \in Devs \ {"WrapSlice"} :
           LET st2 == RepairedOp(ws.recs, e, D)
               want == OpIds(ws.recs, e)
           IN /\ Len(st2.res) = Len(want)
              /\ v \notin OpJudge(ws.recs, e, Proj(st2, want))}
+       \cup
+       \* "WrapSlice" has no repaired transcription; it is recognised by its
+       \* input predicate, on the feature the verdict is about, markers only
+       {D \in Devs \cap {"WrapSlice"} :
+          /\ e.op = "slice" /\ v[1] \in {"flag5", "flag3"}
+          /\ LET S == ws.recs[e.src]
+                 L == Len(S.ids)
+                 a1 == NormIdx(e.s, L)
+                 b1 == NormIdx(e.e, L)
+                 fs == FeatsWith(S, v[2])
+             IN b1 < a1 /\ fs # <<>> /\ WrapSplitPart(fs[1].loc, a1, b1)}
 
 StepInit(ws, name, st, withext) ==
   LET R == Proj(st, FreshIds(ws, Len(st.res)))
   IN [recs |-> BindRec(ws.recs, name, R), nextId |-> ws.nextId + Len(st.res),
-      vs |-> IF withext THEN ExtractRule(R) ELSE {}]
+      vs |-> IF withext THEN ExtractRule(R) ELSE {}, taint |-> ws.taint \ {name}]
 
 \* one library call: e carries the (observed or calculated) result e.st
 StepOp(ws, e, withext) ==
-  IF e.panic # "" THEN [recs |-> ws.recs, nextId |-> ws.nextId, vs |-> V("panic", "-")]
+  IF e.panic # "" THEN [recs |-> ws.recs, nextId |-> ws.nextId, vs |-> V("panic", "-"), taint |-> ws.taint]
   ELSE LET want == OpIds(ws.recs, e)
            same == Len(want) = Len(e.st.res)
            ids2 == IF same THEN want ELSE FreshIds(ws, Len(e.st.res))
            O == Proj(e.st, ids2)
+           vs2 == OpJudge(ws.recs, e, O) \cup (IF withext THEN ExtractRule(O) ELSE {})
        IN [recs |-> BindRec(ws.recs, e.dst, O),
            nextId |-> IF same THEN ws.nextId ELSE ws.nextId + Len(e.st.res),
-           vs |-> OpJudge(ws.recs, e, O) \cup (IF withext THEN ExtractRule(O) ELSE {})]
+           vs |-> vs2,
+           taint |-> IF vs2 # {} \/ OpSrcs(e) \cap ws.taint # {} THEN ws.taint \cup {e.dst} ELSE ws.taint \ {e.dst}]
 
 StepLaw(ws, e) ==
-  IF ~HasRec(ws, e.a) \/ ~HasRec(ws, e.b) THEN {}
+  IF ~HasRec(ws, e.a) \/ ~HasRec(ws, e.b) \/ e.a \in ws.taint \/ e.b \in ws.taint THEN {}
   ELSE CASE e.name = "restored"    -> LawRestored(ws.recs[e.a], ws.recs[e.b])
          [] e.name = "samemeaning" -> LawSameMeaning(ws.recs[e.a], ws.recs[e.b])
          [] e.name = "pieces"      -> LawPieces(ws.recs[e.a], ws.recs[e.b])
